@@ -103,6 +103,7 @@ def node_phase(chk, ids, mates, draws, pool, n_mates=40, n_draws=20, n_pool=20, 
         return ef, o, r
     res = [x for x in vlib.pmap(one, list(enumerate(parts)), n=min(16, len(parts))) if x]
     viols, drifts = [], []
+    dirty = []
     tot = {"searches": 0, "events": 0, "over_budget": 0, "counts": {}, "files": len(res), "aborted_inside_tree": 0}
     for ef, o, r in res:
         for k in ("searches", "events", "over_budget"):
@@ -134,9 +135,14 @@ def node_phase(chk, ids, mates, draws, pool, n_mates=40, n_draws=20, n_pool=20, 
                 w = "%s|%s|depth=%s|%s" % (d["what"], root.get("fen"), root.get("depth"), json.dumps(d.get("detail", {}).get("move") or d.get("detail", {}).get("fen")))
                 viols.append((w, d["what"], {"report": d, "root": {k: root.get(k) for k in ("fen", "pre", "depth", "stopk", "tag", "sid")}}, ef))
         for t, d in r.reports:
+            if t == "GEN" and d.get("kind") == "dirty":
+                idx = max([i for i, (n, _) in enumerate(roots) if n <= d.get("at", 0)], default=0)
+                d["root_event"] = roots[idx][1] if roots else {}
+                dirty.append(d)
             if t == "DRIFT":
                 drifts.append({"what": d["what"], "detail": d.get("detail"), "source": ef, "at": d.get("at")})
     tot["aborted_inside_tree"] = tot["counts"].get("X", 0)
+    tot["dirty"] = dirty
     return viols, drifts, tot
 
 
@@ -161,5 +167,8 @@ def standard(chk, ids, scale=1.0, stops=(), label="nodes"):
     chk.drift += ndrift
     if nstat["counts"].get("M", 0) == 0:
         raise vlib.ToolError("vacuous node traces: %s" % nstat)
+    dirty = nstat.pop("dirty", [])
     chk.cov["node_traces"] = nstat
+    nstat = dict(nstat)
+    nstat["dirty"] = dirty
     return nstat
